@@ -2045,7 +2045,7 @@ pub fn run(cfg: &Cfg, rep: &mut Report) {
         }
     }
 
-    rep.require("glm.iter", 1);
+    rep.expect_site("glm.iter", 1);
     rep.require("result:ok", 1);
     for f in FAMS {
         rep.require(&format!("fit:{}:alpha=0", f.name()), 1);
